@@ -238,12 +238,17 @@ func (p *HTTPProxy) ServeHTTP(w http.ResponseWriter, r *http.Request) {
 		r.URL = targetURL
 		// connect with the configured limits like the transports do
 		dialer := &net.Dialer{Timeout: p.Config.DialTimeout, KeepAlive: p.Config.KeepAliveTimeout}
+		// the answer to the upgrade request is the response header of the upstream
+		wait := time.Second
+		if p.Config.ResponseHeaderTimeout > 0 {
+			wait = p.Config.ResponseHeaderTimeout
+		}
 		if targetURL.Scheme == "https" || targetURL.Scheme == "wss" {
-			h = newWSHandler(targetURL.Host, func(network, address string) (net.Conn, error) {
+			h = newWSHandlerWait(targetURL.Host, func(network, address string) (net.Conn, error) {
 				return tls.DialWithDialer(dialer, network, address, tr.(*http.Transport).TLSClientConfig)
-			}, p.Stats.WSConn)
+			}, p.Stats.WSConn, wait)
 		} else {
-			h = newWSHandler(targetURL.Host, dialer.Dial, p.Stats.WSConn)
+			h = newWSHandlerWait(targetURL.Host, dialer.Dial, p.Stats.WSConn, wait)
 		}
 
 	case accept == "text/event-stream":
